@@ -32,6 +32,17 @@ VERIF_MAIN {
   } else {
     ASSERT(out[1] == 1 && out[2] == arg[1], "an accepted insert is visible");
   }
+#elif RKIND == 4
+  /* the reserved mapped value at ANY position of a sorted bulk-load range (repeated keys allowed: only the first of a group is kept) */
+  int kept_reserved = 0, any_reserved = 0;
+  for (int i = 0; i < MAXBULK; i++) {
+    bk[i] = (unsigned char) IN(i ? bk[i - 1] : 0, 6); bv[i] = (unsigned char) IN(252, 255);
+    if (bv[i] == 255) { any_reserved = 1; if (!i || bk[i] != bk[i - 1]) kept_reserved = 1; }
+  }
+  unsigned int rc = UNIT(u_dyn_reject)(1, 2, bk, bv, MAXBULK, arg, out);
+  OUT(rc); OUT(out[0]);
+  if (kept_reserved) ASSERT(rc == 1, "C20 a bulk-load pair carrying the reserved tombstone value is rejected with std::invalid_argument at every position");
+  if (!any_reserved) ASSERT(rc == 0, "C20 a sorted bulk-load without the reserved value is accepted");
 #else
   for (int i = 0; i < MAXBULK; i++) { bk[i] = (unsigned char) IN(i ? bk[i - 1] + 1 : 0, 6 + i); bv[i] = (unsigned char) IN(0, 3); }
   arg[0] = (unsigned char) IN(0, 9); arg[1] = (unsigned char) IN(0, 9);
